@@ -17,6 +17,7 @@ CONSTANTS
   GuardPerClient = TRUE
   RearmPerRead = FALSE
   NoCloseOnError = FALSE
+  RearmAfterConnect = FALSE
 VIEW View
 CHECK_DEADLOCK FALSE
 INVARIANT NoBindError
